@@ -388,6 +388,28 @@ where
                     *slot = s.to_bytes();
                 }
             },
+            "scalar_plus_l" => {
+                // the same residue written non-canonically: s + k*l as a 256-bit little-endian integer (k = 1..7 keeps the top bit clear for most s)
+                let f = op["field"].as_str().unwrap();
+                let k = op["k"].as_u64().unwrap_or(1);
+                let slot: &mut [u8; 32] = match f {
+                    "r1" => &mut w.r1,
+                    "s1" => &mut w.s1,
+                    "d1" => w.d1.get_mut(idx).ok_or("d1 idx")?,
+                    _ => return Err("bad scalar field".into()),
+                };
+                const L: [u8; 32] = [
+                    0xed, 0xd3, 0xf5, 0x5c, 0x1a, 0x63, 0x12, 0x58, 0xd6, 0x9c, 0xf7, 0xa2, 0xde, 0xf9, 0xde, 0x14, 0, 0, 0, 0, 0, 0, 0, 0, 0, 0, 0, 0, 0, 0, 0, 0x10,
+                ];
+                for _ in 0..k {
+                    let mut carry = 0u16;
+                    for i in 0..32 {
+                        let t = slot[i] as u16 + L[i] as u16 + carry;
+                        slot[i] = (t & 0xff) as u8;
+                        carry = t >> 8;
+                    }
+                }
+            },
             "point_set" => {
                 let f = op["field"].as_str().unwrap();
                 let to = &op["to"];
